@@ -684,7 +684,15 @@ func (u *Unit) callFunc(call *ast.CallExpr, f *types.Func, recv *Val, args []Val
 		return u.inlineFunc(fi, recv, args, st)
 	}
 	if con == nil && fi != nil && u.inSpec {
-		u.fail("specification calls %s which has no contract", funcKeyOfObj(f))
+		// a specification that calls a function without (or with a stale) contract: uninterpreted
+		u.reg.note("specification calls " + funcKeyOfObj(f) + " which has no contract: treated as an uninterpreted function of its arguments and the heap epoch")
+		sig := f.Type().(*types.Signature)
+		var res []Val
+		for i := 0; i < sig.Results().Len(); i++ {
+			t := sig.Results().At(i).Type()
+			res = append(res, u.pureResult(f, i, u.reg.sortOf(t), t, recv, args, st))
+		}
+		return res
 	}
 	return u.callByContract(call, f, con, recv, args, st)
 }
